@@ -199,6 +199,15 @@ fn gen_expr(r: &mut Rng, item: &MVal, root: &MVal, cfg: &GenCfg, depth: usize, a
             MExpr::Cmp(r.pick(&["!=", "<", "<=", ">", ">="]).to_string(), path, other)
         };
     }
+    // rarely a literal on both sides (a constant condition)
+    if r.chance(1, 25) {
+        let other = gen_lit(r, base, cfg);
+        return if r.chance(1, 2) {
+            MExpr::Eq(Operand::Lit(lit), Operand::Lit(other))
+        } else {
+            MExpr::Cmp(r.pick(&["!=", "<", "<=", ">", ">="]).to_string(), Operand::Lit(lit), Operand::Lit(other))
+        };
+    }
     let literal_first = r.chance(1, 5);
     if r.chance(1, 3) {
         let op = r.pick(&["!=", "<", "<=", ">", ">="]).to_string();
